@@ -369,10 +369,15 @@ def gen_definition(rng, tzid, allow_inconsistent=False):
     if with_names and len(defn["obs"]) > 1 and rng.random() < 0.15:
         rng.choice(defn["obs"])["name"] = None      # TZNAME is optional per observance
         meta["partly_named"] = True
-    if rng.random() < 0.3:
-        # what real producers add: properties that must not influence the zone
-        defn["extras"] = rng.sample(["X-LIC-LOCATION:" + tzid.strip("/"), "LAST-MODIFIED:20200101T000000Z",
-                                     "TZURL:http://tz.example.com/" + tag, "X-MICROSOFT-CDO-TZID:4"], rng.randint(1, 3))
+    if rng.random() < 0.4:
+        # what real producers add: properties that must not influence the zone.  The revision stamp is the same in
+        # every export of one producer, whatever the definition says (a truncated export, another rule set)
+        defn["extras"] = rng.sample(["X-LIC-LOCATION:" + tzid.strip("/"), "TZURL:http://tz.example.com/" + tag,
+                                     "X-MICROSOFT-CDO-TZID:4"], rng.randint(0, 2))
+        if rng.random() < 0.75:
+            defn["extras"].insert(rng.randint(0, len(defn["extras"])), "LAST-MODIFIED:20200101T000000Z")
+        if not defn["extras"]:
+            defn["extras"] = ["X-LIC-LOCATION:" + tzid.strip("/")]
         for ob in defn["obs"]:
             if rng.random() < 0.4:
                 ob["extras"] = rng.sample(["COMMENT:generated", "X-NOTE:" + tag], rng.randint(1, 2))
